@@ -1,12 +1,12 @@
-\* pattern A: every abstract site of <= 3 entries (quick tier) in 2 disassemblies (entry types c/b, with and without entry
-\* points and mid-block comments, one cross reference from an entry or a page), both path layouts, decimal and
-\* hex anchors, single-page on/off: the documented file set and link rule imply the C16 invariants.
+\* pattern A: every abstract site of <= 3 entries (quick tier) in 2 disassemblies (entry types c/b, three instructions each, one with a
+\* mid-block comment; one #R or operand reference from an entry or a page), the deep path layout, hex anchors,
+\* single-page on/off: the documented file set and link rule imply the C16 invariants.
 SPECIFICATION Spec
 CONSTANTS
   MaxEntries = 3
   MaxRefs = 1
   Types = {"c", "b"}
-  Pts = {0, 2}
+  Pts = {2}
   Layouts = {2}
   AnchorKinds = {"x"}
   Deviation = "none"
